@@ -1122,6 +1122,17 @@ pub fn srawi(
     let block_index = {
         let block = control_flow_graph.new_block()?;
 
+        // XER[CA] is set when rS is negative and one-bits are shifted out
+        let shifted_out_mask = (1u64 << (detail.operands[2].imm() as u64 & 0x1f)) - 1;
+        let carry = Expression::and(
+            Expression::cmplts(lhs.clone(), expr_const(0, 32))?,
+            Expression::cmpneq(
+                Expression::and(lhs.clone(), expr_const(shifted_out_mask, 32))?,
+                expr_const(0, 32),
+            )?,
+        )?;
+
+        block.assign(scalar("carry", 1), carry);
         block.assign(dst, Expression::sra(lhs, rhs)?);
 
         block.index()
